@@ -62,6 +62,11 @@ func (b Buffer) RedactableBytes() m.RedactableBytes {
 	// NB: we're dependent on the fact this is a copy of the original
 	// buffer. The finalize() method should not be called
 	// in a conceputally read-only accessor like RedactableBytes().
+	//
+	// The copy shares its storage with the original: finalize() must
+	// not write there, and the result, which the caller keeps, must
+	// not be changed by later writes to the buffer.
+	b.buf = append(make([]byte, 0, len(b.buf)+m.EndLen), b.buf...)
 	b.finalize()
 	return m.RedactableBytes(b.buf)
 }
@@ -71,6 +76,7 @@ func (b Buffer) RedactableString() m.RedactableString {
 	// NB: we're dependent on the fact this is a copy of the original
 	// buffer. The finalize() method should not be called
 	// in a conceputally read-only accessor like RedactableString().
+	b.detach()
 	b.finalize()
 	return m.RedactableString(b.buf)
 }
@@ -80,6 +86,7 @@ func (b Buffer) String() string {
 	// NB: we're dependent on the fact this is a copy of the original
 	// buffer. The finalize() method should not be called
 	// in a conceputally read-only accessor like String().
+	b.detach()
 	b.finalize()
 	return m.RedactableString(b.buf).StripMarkers()
 }
@@ -115,8 +122,18 @@ func (b *Buffer) TakeRedactableString() m.RedactableString {
 // Len returns the number of bytes in the buffer.
 func (b *Buffer) Len() int {
 	copy := *b
+	copy.detach()
 	copy.finalize()
 	return len(copy.buf)
+}
+
+// detach is called on a by-value copy of a buffer before the copy is
+// finalized. The copy shares its storage with the original, and what
+// finalize() appends would go to the spare capacity of that storage:
+// the original (or another copy, possibly on another goroutine) writes
+// there too. Without spare capacity, appending allocates.
+func (b *Buffer) detach() {
+	b.buf = b.buf[:len(b.buf):len(b.buf)]
 }
 
 // Cap returns the capacity of the buffer's underlying byte slice,
